@@ -25,7 +25,7 @@ pub static DEF: PropDef = PropDef {
     id: "C04",
     level: "exploration",
     engine: "query",
-    rule: "one run = a generated dataset (20..120 rows, 3 metrics, nullable host label, exact-in-f64 values, timestamps placed minutes / hours / days before and slightly after the virtual now, on hour-bucket edges +-1 ns) ingested through the real Ingester with a drawn flush threshold (so the same rows land in 1..k chunks in different orders), on either catalog backend, with either timestamp column type; 6..12 generated SELECTs whose WHERE confines the timestamp to a finite window by construction (comparisons in both operand orders against integer / TIMESTAMP-literal / now()-relative bounds, BETWEEN, =, AND/OR/NOT nests, unions of windows, label predicates, projections, count/sum/min/max/avg, GROUP BY), each run cold and warm, before and after a real compaction cycle, with a tiny or large L1 cache and adaptive indexing on or off; the answer must equal the same SQL on a MemTable of all ingested rows (multiset of canonically rendered rows); distinct = distinct (dataset, query text) hash; non-trivial = the reference answer is non-empty or the window straddles data",
+    rule: "one run = a generated dataset (20..120 rows, 3 metrics, nullable host label, exact-in-f64 values, timestamps placed minutes / hours / days before and slightly after the virtual now, on hour-bucket edges +-1 ns) ingested through the real Ingester with a drawn flush threshold (so the same rows land in 1..k chunks in different orders), on either catalog backend, with either timestamp column type; 6..12 generated SELECTs whose WHERE confines the timestamp to a finite window by construction (comparisons in both operand orders against integer / TIMESTAMP-literal / now()-relative bounds, BETWEEN, =, AND/OR/NOT nests, unions of windows, label predicates, projections, count/sum/min/max/avg, GROUP BY), each run cold and warm, before and after a real compaction cycle, a third of the runs over a flaky store during the query phase (failed requests, response bodies breaking part-way, delays: a query may fail then, a returned answer must still be exact), with a tiny or large L1 cache and adaptive indexing on or off; the answer must equal the same SQL on a MemTable of all ingested rows (multiset of canonically rendered rows); distinct = distinct (dataset, query text) hash; non-trivial = the reference answer is non-empty or the window straddles data",
     quick_runs: 600,
     thorough_runs: 10_000,
     run_cap_ms: 120_000,
@@ -192,6 +192,21 @@ fn scen(_spec: RunSpec) -> ScenFut {
             queries.push((sql, g.features.clone()));
         }
         let compact_between = sim::w_bool(50);
+        // a third of the runs query over a flaky store (requests failing before / after the effect, response bodies
+        // breaking part-way, delays): such a query may fail, it may never return a wrong answer
+        let flaky = sim::w(3) == 2;
+        if flaky {
+            let b = 1 + sim::w(3);
+            sim::set_cfg(|c| {
+                c.fail_before_pm = 30;
+                c.fail_after_pm = 10;
+                c.body_break_pm = 30;
+                c.delay_pm = 10;
+                c.delay_ms = vec![1, 100];
+                c.fault_budget = b;
+            });
+        }
+        let faults_so_far = || sim::with(|st| st.faults.values().sum::<u64>());
         let mut hist = format!("{}|{}|", all_rows.len(), n_chunks);
         let mut any_nonempty = false;
         for round in 0..2 {
@@ -231,8 +246,14 @@ fn scen(_spec: RunSpec) -> ScenFut {
                     any_nonempty = true;
                 }
                 for temp in ["cold", "warm"] {
+                    let f0 = faults_so_far();
                     let got = qn.query(sql).await;
                     hist.push_str(sql);
+                    if got.is_err() && faults_so_far() > f0 {
+                        // an injected storage fault hit this query: an error is a legitimate outcome
+                        sim::probe("query-failed-under-injected-fault");
+                        continue;
+                    }
                     match got {
                         Ok(g) => {
                             let got_m = result_multiset(&g);
